@@ -32,7 +32,15 @@ def main(argv):
                          "closed CFGs: all with <=4 nodes, 5-node ones modulo relabelling (sampled in the quick tier), seeded random 6-18 nodes, std-lib bytecode "
                          "CFGs, generated source programs; one TLC state per (behaviour, stage) plus one per primitive event of a second, smaller set of "
                          "behaviours; non-trivial = restructuring created at least one region and one further block", inputs)
-        tr = tracefam.run_traces(tinputs, "C04", d, args.jobs)
+        try:
+            tr = tracefam.run_traces(tinputs, "C04", d, args.jobs)
+        except tlc.MachineryError as e:
+            # a second engine that cannot cope with what the code did must not mask a verdict the first engine already reached
+            # (with tens of thousands of violating states TLC has run out of memory collecting counterexamples)
+            if not rep.violations:
+                raise
+            print("NOTE: per-primitive trace validation could not be completed (%s); the stage verdicts above stand" % str(e)[:120])
+            tr = {"viol": [], "states": 0, "generated": 0, "events": 0, "behaviours": 0}
         for v in tr["viol"]:
             for clause in v["bad"]:
                 if clause.startswith("C04/"):
